@@ -315,3 +315,18 @@ contract(MP, 'PDABuilder.build', {'self': 'Builder'}, returns='PDA', modifies=['
          theories=TH, props=['C17'],
          note='a tokenised PDA description (labels "a,uv") is turned into exactly the automaton that was written; an exception is raised exactly when a used state is undeclared, a name is malformed, the number of initial '
               'states is not one, the epsilon declaration has no or several values, a label does not have four characters, a used input / stack symbol is undeclared, or the epsilon symbol is declared as an input or stack symbol')
+
+
+# ------------------------------------------------------------------------------------------------ generic builder, fresh names (used by the TM builder)
+contract(MB, 'AutomatonBuilder._fresh_state', {'self': 'Builder', 'states': 'Set[Atom]', 'hint': 'Atom'}, returns='Atom', defaults={'hint': "'P'"}, type_invariants=['fin(states)'],
+         ensures=['result not in states', 'implies(hint not in states, result == hint)', 'result == hint or any(i >= 1 and result == hint_index_name(hint, i) for i in ints())'],
+         loops={1: {'invariant': ['index >= 1', 'hint in states'], 'decreases': ['card(states - unnamed_from(hint, index))'],
+                    'body_end': ['state == hint_index_name(hint, index - 1)', 'state in states', 'states - unnamed_from(hint, index) == (states - unnamed_from(hint, index - 1)) - {state}']}},
+         theories=['word', 'naming'], props=['C17'],
+         note='a state name that is not in use: the hint itself if it is free, otherwise the first free name hint1, hint2, ... (total correctness: finitely many names are taken)')
+contract(MB, 'AutomatonBuilder.build', {'self': 'Builder'}, returns='Automaton', modifies=['self'],
+         raises=['any(%s and not %s for x in atoms())' % (used('self.A'), _decl('x')), 'any(%s and not re_fullmatch(self.state_regex, x) for x in atoms())' % _decl('x')],
+         raise_witness={'AutomatonBuilder__check_states_are_declared': 0, 'AutomatonBuilder__check_state_labels': 1},
+         ensures=['result == self.A', 'all((x in result.states) == %s for x in atoms())' % _decl('x').replace('self.A', 'old(self.A)'),
+                  'self.A.transitions == old(self.A.transitions)', 'self.A.initial_states == old(self.A.initial_states)', 'self.A.final_states == old(self.A.final_states)', 'self.A.items == old(self.A.items)'],
+         theories=TH, props=['C17'], note='the generic description with its state set filled in; raises exactly when a used state is undeclared or a state name is malformed')
